@@ -13,8 +13,8 @@ from .common import muted, mask, rng, shard_slice
 def sweep_entry(run, entry, cfgs, rnd, tier, deadline):
     import py4hw
     exhaustive_bits = 12 if tier == 'quick' else 14
-    max_cases = 400 if tier == 'quick' else 3000
-    n_random = 40 if tier == 'quick' else 600
+    max_cases = 400 if tier == 'quick' else 12000
+    n_random = 40 if tier == 'quick' else 4000
     nconf = 0
     for cfg in cfgs:
         if time.time() > deadline:
